@@ -27,7 +27,13 @@ def main():
         print(f"no check for {pid}")
         return 2
     if a.replay:
-        return mod.replay(a.replay)
+        from vlib import replay as R
+        try:
+            return R.replay(pid, a.replay)
+        except Exception:
+            traceback.print_exc()
+            print(f"[{pid}] internal error while replaying (not a verdict)")
+            return 2
     try:
         res = mod.run(a.tier, seed, only=a.only)
     except Exception:
